@@ -57,10 +57,7 @@ func c09Catalogue() map[string]map[string][]*target.Target {
 		"e-states":     {"j1": {c09T(5, "e:1", "in_transfer"), c09T(6, "f:1", "")}},
 		"f-other-one":  {"j2": {c09T(7, "g:1", "")}},
 		"g-empty-jobs": {"j1": {}, "j2": {}},
-		// labels that carry request parameters, one of them a parameter the job itself sets
-		"i-param-labels": {"j1": {c09T(8, "bb:9115", "", labels.Label{Name: "__param_module", Value: "icmp"}, labels.Label{Name: "__param_target", Value: "https://x.example"}),
-			c09T(9, "bb:9115", "in_transfer", labels.Label{Name: "__param_module", Value: "http_2xx"}, labels.Label{Name: "__param_target", Value: "https://y.example"})}},
-		"h-large": large,
+		"h-large":      large,
 	}
 }
 
@@ -94,6 +91,13 @@ func nTargets(m map[string][]*target.Target) int {
 }
 
 // child: Load, then (optionally under a file-size limit) the update under test.
+// c09ParamLabels: an assignment whose labels carry request parameters, one of them a parameter the job itself
+// sets (used where the real injector runs as update callback)
+func c09ParamLabels() map[string][]*target.Target {
+	return map[string][]*target.Target{"j1": {c09T(8, "bb:9115", "", labels.Label{Name: "__param_module", Value: "icmp"}, labels.Label{Name: "__param_target", Value: "https://x.example"}),
+		c09T(9, "bb:9115", "in_transfer", labels.Label{Name: "__param_module", Value: "http_2xx"}, labels.Label{Name: "__param_target", Value: "https://y.example"})}}
+}
+
 func c09Child(args []string) int {
 	runtime.LockOSThread()
 	dir := args[0]
@@ -286,7 +290,11 @@ func init() {
 		}
 		// (0) the update callbacks of a real sidecar - the configuration injector, with jobs that set parameters -
 		// run between taking the assignment and storing it: what the next start resumes is what was sent
-		for _, name := range names {
+		cat0 := map[string]map[string][]*target.Target{"i-param-labels": c09ParamLabels()}
+		for k, v := range cat {
+			cat0[k] = v
+		}
+		for _, name := range chk.SortedKeys(cat0) {
 			idx0 := int64(-1000 - len(name))
 			if c.Part != 0 {
 				break
@@ -307,7 +315,7 @@ func init() {
 			}
 			tm.AddUpdateCallbacks(inj.UpdateTargets)
 			var sent map[string][]*target.Target
-			b, _ := json.Marshal(cat[name])
+			b, _ := json.Marshal(cat0[name])
 			_ = json.Unmarshal(b, &sent)
 			r.States++
 			r.Transitions++
@@ -315,7 +323,7 @@ func init() {
 				r.Violate("C09:update-fails:with-injector", "update", fmt.Sprintf("update to %s with the injector as callback not acknowledged: %v", name, err), idx0, &c09Replay{Property: "C09", Prev: "(empty store)", Next: name, Detail: err.Error()})
 				continue
 			}
-			if l := c09LoadDir(dir); l.Err != "" || l.Targets != canonTargets(cat[name]) {
+			if l := c09LoadDir(dir); l.Err != "" || l.Targets != canonTargets(cat0[name]) {
 				r.Violate("C09:ack-changed-by-callbacks", "resume-exactly", fmt.Sprintf("%s acknowledged by a sidecar whose injector runs as update callback: the next start resumes something else (%d targets, %s)", name, l.N, l.Err), idx0,
 					&c09Replay{Property: "C09", Clause: "resume-exactly", Prev: "(empty store)", Next: name, Fault: "none; the injector runs as update callback", Loaded: map[string]interface{}{"err": l.Err, "n": l.N, "targets": l.Targets}})
 			}
@@ -411,6 +419,9 @@ func init() {
 				// the follow-up is the previous assignment again, or the rejected one sent once more (the coordinator
 				// repeats an update that was answered with an error)
 				for _, again := range []bool{false, true} {
+					if again && c.Thorough() && pr.prev != "b-one" && pr.prev != "a-empty" {
+						continue // thorough: the repeated update for the pairs that start from these two assignments
+					}
 					followFile = prevFile
 					wantT, wantName, tag := prevT, pr.prev, ""
 					if again {
